@@ -22,6 +22,25 @@
 #include <sys/stat.h>
 #include <fcntl.h>
 #include "../rt/vf.h"
+/* the interpreter calls the real entry points; only calls made by nsync itself go through the
+   --wrap wrappers of rt/wrap.c (and are logged as nested calls) */
+void __real_nsync_mu_lock (nsync_mu *); void __real_nsync_mu_unlock (nsync_mu *); void __real_nsync_mu_rlock (nsync_mu *);
+void __real_nsync_mu_runlock (nsync_mu *); int __real_nsync_mu_trylock (nsync_mu *); void __real_nsync_cv_signal (nsync_cv *);
+void __real_nsync_cv_broadcast (nsync_cv *); void __real_nsync_note_notify (nsync_note);
+int __real_nsync_cv_wait_with_deadline (nsync_cv *, nsync_mu *, nsync_time, nsync_note);
+void __real_nsync_mu_wait (nsync_mu *, int (*) (const void *), const void *, int (*) (const void *, const void *));
+int __real_nsync_wait_n (void *, void (*) (void *), void (*) (void *), nsync_time, int, struct nsync_waitable_s *[]);
+#define nsync_mu_lock __real_nsync_mu_lock
+#define nsync_mu_unlock __real_nsync_mu_unlock
+#define nsync_mu_rlock __real_nsync_mu_rlock
+#define nsync_mu_runlock __real_nsync_mu_runlock
+#define nsync_mu_trylock __real_nsync_mu_trylock
+#define nsync_cv_signal __real_nsync_cv_signal
+#define nsync_cv_broadcast __real_nsync_cv_broadcast
+#define nsync_note_notify __real_nsync_note_notify
+#define nsync_cv_wait_with_deadline __real_nsync_cv_wait_with_deadline
+#define nsync_mu_wait __real_nsync_mu_wait
+#define nsync_wait_n __real_nsync_wait_n
 
 extern void (*vf_lockann_hook) (void *mu, int acquired, int write);
 void *vf_once_sync_base (void);
@@ -59,7 +78,7 @@ static int api_w[MAXOBJ], api_r[MAXOBJ];    /* API-level shadow occupancy */
 static int ann_w[MAXOBJ], ann_r[MAXOBJ];    /* nsync's own annotations */
 static int try_ok[16][MAXOBJ];
 static int in_try[16];
-static int once_runs[MAXOBJ], once_done[MAXOBJ];
+static int once_runs[256], once_done[256];
 static int sleeps_in_lock[16]; static int in_lock_call[16];
 static int expect_stuck_ok;
 
@@ -100,7 +119,7 @@ static int cond_arg_eq (const void *a, const void *b) {
 	return (x->var == y->var && x->val == y->val);
 }
 static void once_f0 (void) { vf_log ("cb f start"); once_runs[0]++; vf_sched_note (); once_done[0] = 1; vf_log ("cb f end"); }
-static void once_farg (void *a) { int i = (int) (intptr_t) a; vf_log ("cb f start"); once_runs[i]++; vf_sched_note (); once_done[i] = 1; vf_log ("cb f end"); }
+static void once_farg (void *a) { int i = (int) (intptr_t) a; vf_log ("cb farg start"); once_runs[i]++; vf_sched_note (); once_done[i] = 1; vf_log ("cb farg end"); }
 
 static nsync_time mk_deadline (struct op *o, char *txt, size_t n) {
 	nsync_time t;
@@ -270,10 +289,10 @@ static void run_prog (void *arg) {
 			vf_log ("call nsync_mu_unlock mu%d", o->a); shadow_rel (o->a, 1); vf_api_enter (); nsync_mu_unlock (&mus[o->a]); vf_api_leave (); vf_log ("ret nsync_mu_unlock -");
 			if (last) { vf_log ("reclaim mu%d", o->a); vf_kill (&mus[o->a]); memset (&mus[o->a], 0xdd, sizeof (mus[o->a])); }
 			break; }
-		case OP_SEM_P: vf_log ("call nsync_mu_semaphore_p sem%d", o->a); vf_api_enter (); nsync_mu_semaphore_p (&sems[o->a]); vf_api_leave (); vf_log ("ret nsync_mu_semaphore_p -"); break;
-		case OP_SEM_PD: { int r; nsync_time t = mk_deadline (o, dt, sizeof (dt)); vf_log ("call nsync_mu_semaphore_p_with_deadline sem%d %s", o->a, dt); vf_api_enter (); r = nsync_mu_semaphore_p_with_deadline (&sems[o->a], t); vf_api_leave (); vf_log ("ret nsync_mu_semaphore_p_with_deadline %s", r == 0 ? "0" : "ETIMEDOUT");
+		case OP_SEM_P: vf_log ("call nsync_mu_semaphore_p sem%d", 100 + o->a); vf_api_enter (); nsync_mu_semaphore_p (&sems[o->a]); vf_api_leave (); vf_log ("ret nsync_mu_semaphore_p -"); break;
+		case OP_SEM_PD: { int r; nsync_time t = mk_deadline (o, dt, sizeof (dt)); vf_log ("call nsync_mu_semaphore_p_with_deadline sem%d %s", 100 + o->a, dt); vf_api_enter (); r = nsync_mu_semaphore_p_with_deadline (&sems[o->a], t); vf_api_leave (); vf_log ("ret nsync_mu_semaphore_p_with_deadline %s", r == 0 ? "0" : "ETIMEDOUT");
 				if (r != 0 && dl_ns (o) > vf_now ()) { vf_violation ("early-timeout", "semaphore timed out early"); } break; }
-		case OP_SEM_V: vf_log ("call nsync_mu_semaphore_v sem%d", o->a); vf_api_enter (); nsync_mu_semaphore_v (&sems[o->a]); vf_api_leave (); vf_log ("ret nsync_mu_semaphore_v -"); break;
+		case OP_SEM_V: vf_log ("call nsync_mu_semaphore_v sem%d", 100 + o->a); vf_api_enter (); nsync_mu_semaphore_v (&sems[o->a]); vf_api_leave (); vf_log ("ret nsync_mu_semaphore_v -"); break;
 		default: break;
 		}
 	}
@@ -421,6 +440,7 @@ static int run_one (char **lines, int nlines, struct vf_config *cfg, FILE *out) 
 	cfg->binary_sem = sem_binary;
 	vf_init (cfg);
 	vf_lockann_hook = &lockann;
+	vf_log_env ("tick %lld", (long long) START_NS);
 	{ /* register the once_sync slots of once.c */
 		char *base = (char *) vf_once_sync_base (); size_t st = vf_once_sync_stride (); int k;
 		for (k = 0; k != 64; k++) { vf_reg (base + st * k, st, K_ONCESYNC, k); }
